@@ -7,6 +7,11 @@ NOTES = ("All checks: ./check <ID> quick|thorough; exit 0 held / 1 VIOLATION / 2
          "every run. known_findings.json lists open findings and fixed: records; replays/<ID>/ holds committed regression cases.")
 NOT_APPLICABLE = {}
 CHECKS = {
+    "C20": {
+        "technique": "property-based testing: generated load / dump / collected-extras / convert calls made twice on the same argument; deep before/after snapshots and a type-directed identity (id()) scan of mutable containers across both results and the argument",
+        "text": "Exploration: arguments are never mutated, repeated calls give equal results, and no mutable container adaptix builds is shared between two results or with the argument (except below Any/object positions).",
+        "note": "Trusted: structural snapshot (canon) and the type-directed walk that knows the Any/object positions; one-shot inputs exempt.",
+    },
     "C01": {
         "technique": "property-based testing: Hypothesis-generated (type expression, canonical value, options, admissible name_mapping recipe) with a round-trip (inverse) oracle, plus JSON and AdaptixJSON legs",
         "text": "Exploration: thousands (quick) to hundreds of thousands (thorough) of distinct generated programs (type x recipe x options) each with a generated value; dump must succeed, load(dump(x)) must be type-exactly equal to x, also after json.dumps/json.loads and through AdaptixJSON bind/result.",
